@@ -355,7 +355,7 @@ func (ug *urlGen) srcset(classes []string, desc, carrier string) string {
 	first := ""
 	for i, cls := range classes {
 		c := ""
-		if i > 0 && cls == classes[0] && ug.g.rng.Intn(3) == 0 {
+		if i > 0 && ug.g.rng.Intn(4) == 0 {
 			// one file named twice (for two densities / widths)
 			c = first
 		} else {
